@@ -389,10 +389,12 @@ public:
      * The parser calls parse_begin() before and parse_end() after it
      * parses one piece of text (a whole file, or one text block of an
      * XML document). Builders that keep stacks across callbacks use
-     * them to drop what a failed parse has left half-built.
+     * them to drop what a failed parse has left half-built. \a results
+     * is the number of expressions the text leaves behind for the caller
+     * when it is parsed without a flaw (-1 if that is not fixed).
      */
     virtual void parse_begin() {}
-    virtual void parse_end(bool failed) {}
+    virtual void parse_end(bool failed, int results) {}
 
     virtual void handle_expect(const char* text) = 0;
 
